@@ -468,7 +468,7 @@ def main(ctx):
         "u8": [1, 0, 2 ** 63, 2 ** 64 - 1, ALPHA["u8"][-1]],
         "i4": [0, 5, -1, 2 ** 31 - 1, ALPHA["i4"][-1]],
         "u1": [1, 0, 255, 128, ALPHA["u1"][-1]],
-        "f8": [0.5, -1.0, 2.0, -0.0, 0.0, float("inf"), ALPHA["f8"][-1]],
+        "f8": [0.5, -1.0, float("-inf"), -0.0, 0.0, float("inf"), 2.0, ALPHA["f8"][-1]],
         "f4": [0.5, -1.0, 2.0, float(np.float32(0.1)), ALPHA["f4"][-1]],
         "S3": [b"a", b"b", b"", b"ab", ALPHA["S3"][-1]],
         "U3": ["a", "b", "", "é", ALPHA["U3"][-1]],
@@ -641,3 +641,62 @@ def main(ctx):
     call_sequences(ctx, "call-sequences", make_pool, SEQ_CALLS, seq_run, lambda: [nu], depth=ctx.pick(3, 4),
                    mutations=SEQ_MUT, mutate=seq_mutate, enabled_after=seq_enabled, nodedup_depth=ctx.pick(3, 3),
                    must_raise=seq_must_raise)
+
+    # ------------------------------------------------------------ long arrays (size thresholds)
+    # implementations switch strategy at some input size (sort the probes first, vectorise, chunk): a few fixed long
+    # inputs on either side of the usual thresholds (2^12, 2^16), scrambled by a fixed linear congruence, with
+    # repeats in the second array and probes that match nothing
+    def lcg_perm(n, a, c):
+        return [(a * i + c) % n for i in range(n)]        # a coprime to n: a permutation of range(n)
+
+    def one_long(case, rec):
+        what, n1, n2, dt = case
+        base = np.array(lcg_perm(n1, 7919, 13), dtype="i8") * 3 - n1       # distinct, unsorted
+        if what == "match":
+            a1 = base.astype(dt) if dt != "S8" else np.array([b"k%06d" % v for v in (base + n1)], dtype="S8")
+            pr = np.array([(31 * i + 7) % (n1 + n1 // 3) for i in range(n2)], dtype="i8") * 3 - n1   # some beyond the range, repeats
+            a2 = pr.astype(dt) if dt != "S8" else np.array([b"k%06d" % v for v in (pr + n1)], dtype="S8")
+            pos = {v: i for i, v in enumerate(a1.tolist())}
+            exp1, exp2 = [], []
+            for j, v in enumerate(a2.tolist()):
+                if v in pos:
+                    exp1.append(pos[v])
+                    exp2.append(j)
+            for presorted in (False, True):
+                b1 = np.sort(a1) if presorted else a1
+                if presorted:
+                    p2 = {v: i for i, v in enumerate(b1.tolist())}
+                    e1 = [p2[v] for v in a2.tolist() if v in p2]
+                else:
+                    e1 = exp1
+                try:
+                    m1, m2 = nu.match(b1, a2, presorted=presorted)
+                except Exception as e:
+                    return rec.fail(case, "match(presorted=%r) raised %s: %s" % (presorted, type(e).__name__, e))
+                if np.asarray(m1).tolist() != e1 or np.asarray(m2).tolist() != exp2:
+                    k = next((i for i, (x, y) in enumerate(zip(np.asarray(m2).tolist(), exp2)) if x != y), min(len(exp2), np.asarray(m2).size))
+                    return rec.fail(case, "match(presorted=%r) on %d x %d elements: %d pairs returned, %d expected; first difference at "
+                                          "pair %d (pairs must come in the order of the second array)" % (presorted, n1, n2, np.asarray(m2).size, len(exp2), k))
+            return rec.ok(case, outcome="match:%s" % dt, nontrivial=True, calls=2)
+        vals = (np.array([(31 * i + 7) % n1 for i in range(n2)], dtype="i8") - n1 // 2).astype(dt)
+        v = vals.tolist()
+        if what == "unique":
+            idx = np.asarray(nu.unique(vals))
+            got = sorted(vals[idx].tolist())
+            if idx.size != len(set(v)) or got != sorted(set(v)):
+                return rec.fail(case, "unique on %d elements: %d indices for %d distinct values" % (n2, idx.size, len(set(v))))
+            return rec.ok(case, outcome="unique:%s" % dt, nontrivial=True, calls=1)
+        flags = np.array([(17 * i + 3) % 11 - 5 for i in range(n2)], dtype="i8")
+        idx = np.asarray(nu.rem_dup(vals, flags)).reshape(-1)
+        best = {}
+        for x, f in zip(v, flags.tolist()):
+            best[x] = max(best.get(x, f), f)
+        if idx.size != len(best) or sorted(vals[idx].tolist()) != sorted(best) or any(flags[i] != best[v[i]] for i in idx.tolist()):
+            return rec.fail(case, "rem_dup on %d elements: %d indices for %d distinct values, or a kept element without the largest flag"
+                            % (n2, idx.size, len(best)))
+        rec.ok(case, outcome="rem_dup:%s" % dt, nontrivial=True, calls=1)
+
+    SIZES = ctx.pick([(100, 4095), (100, 4096), (3000, 5000), (70, 70000)], [(100, 4095), (100, 4096), (3000, 5000), (5000, 3000), (70, 70000), (70000, 70000), (65536, 65537)])
+    lunits = [("match", n1, n2, dt) for (n1, n2) in SIZES for dt in ("i8", "f8", "i4", "S8")]
+    lunits += [(w, n1, n2, dt) for w in ("unique", "rem_dup") for (n1, n2) in SIZES[:4] for dt in ("i8", "f8")]
+    ctx.lattice("long-arrays", lunits, one_long, bounds=dict(sizes=SIZES))
